@@ -114,7 +114,19 @@ class CallMixin:
                     for kw in node.keywords:
                         if kw.arg:
                             extra['_kw_' + kw.arg] = self.pure(kw.value, st)
+                if any('has_kw_' in t for t in cs):            # has_kw_<name>: is the keyword passed at this call?
+                    import re as _re
+                    given = {kw.arg for kw in node.keywords if kw.arg}
+                    for t in cs:
+                        for nm in _re.findall(r'\bhas_kw_(\w+)', t):
+                            extra['has_kw_' + nm] = VBool(z3.BoolVal(nm in given))
+                import re as _re2
                 for n, text in enumerate(cs):
+                    absent = [m for m in _re2.findall(r'(?<!has)_kw_(\w+)', text) if '_kw_' + m not in extra]
+                    absent += [m for m in _re2.findall(r'\b_arg(\d+)', text) if '_arg' + m not in extra]
+                    if absent:      # the clause speaks about an argument this call does not pass: it does not hold here
+                        self.oblige(st, 'callsite', '%s:%d' % (ast.unparse(f), n), text, z3.BoolVal(False), node.lineno)
+                        continue
                     self.oblige(st, 'callsite', '%s:%d' % (ast.unparse(f), n), text, self.ev_spec(text, st, extra), node.lineno)
         rule = self.find_rule(ast.unparse(f))
         if rule is not None:
